@@ -278,7 +278,7 @@ func scanImmut(c *core.Ctx) []ob {
 		}
 		hits := map[types.Object][]hit{}
 		for _, w := range collectWrites(info, fd.Body) {
-			for _, r := range rootsOf(info, w.target, aliases, 0) {
+			for _, r := range rootsOfWrite(info, w, aliases) {
 				if _, isIn := inputs[r.obj]; !isIn {
 					continue
 				}
